@@ -1,5 +1,8 @@
 #!/usr/bin/env python3
-"""selftest/run.py [--only <substr>]  — test the checker both ways.
+"""selftest/run.py [--only <substr>] [--jobs N]  — test the checker both ways.
+With --jobs N the patches are distributed over N scratch worktrees of /repo (under /tmp, removed afterwards); the checks are then
+run with SQLGREP_REPO pointing at the worker's worktree and their evidence redirected to a scratch directory, so that neither
+/repo nor the committed evidence is touched.
 
 For every seeded change (seeded/<id>/patch[.rebased].diff) and every hand-made mutant
 (selftest/mutants/*.diff) the patch is applied to /repo, the checks of the properties named in the
@@ -20,22 +23,22 @@ def props_of(name):
     return sorted(set(re.findall(r"C\d\d", name))) or []
 
 
-def run_patch(patch, props):
-    if sh("git status --porcelain --untracked-files=no", REPO).stdout.strip():
-        raise SystemExit("/repo not clean")
-    r = sh("git apply %s || git apply -3 %s" % (patch, patch), REPO)
+def run_patch(patch, props, repo=REPO, env_prefix=""):
+    if sh("git status --porcelain --untracked-files=no", repo).stdout.strip():
+        raise SystemExit("%s not clean" % repo)
+    r = sh("git apply %s || git apply -3 %s" % (patch, patch), repo)
     if r.returncode != 0:
-        sh("git reset -q --hard HEAD", REPO)
+        sh("git reset -q --hard HEAD", repo)
         return {"applies": False}
     out = {"applies": True, "checks": {}}
     try:
         for p in props:
-            c = sh("./check %s" % p, V)
+            c = sh("%s./check %s" % (env_prefix, p), V)
             viol = re.findall(r"^--- .*rule (\S+)", c.stdout, re.M)
             out["checks"][p] = {"rc": c.returncode, "rules": sorted(set(viol)),
                                 "error": (re.findall(r"^ERROR.*", c.stdout, re.M) or [None])[0]}
     finally:
-        sh("git reset -q --hard HEAD", REPO)
+        sh("git reset -q --hard HEAD", repo)
     return out
 
 
@@ -66,10 +69,37 @@ def main():
         n = os.path.basename(p)[:-5]
         jobs.append(("benign", n, p, ALL))
     bad = 0
-    for kind, n, p, props in jobs:
-        if only and only not in n:
-            continue
-        r = run_patch(p, props)
+    todo = [j for j in jobs if not (only and only not in j[1])]
+    njobs = int(sys.argv[sys.argv.index("--jobs") + 1]) if "--jobs" in sys.argv else 1
+    done = {}
+    if njobs > 1:
+        import concurrent.futures, queue, shutil, tempfile
+        wts = queue.Queue()
+        made = []
+        for i in range(njobs):
+            wt = "/tmp/st-wt-%d-%d" % (os.getpid(), i)
+            sh("git worktree add --detach %s HEAD -q" % wt, REPO)
+            ev = tempfile.mkdtemp(prefix="st-ev-")
+            made.append((wt, ev))
+            wts.put((wt, ev))
+
+        def work(job):
+            kind, n, p, props = job
+            wt, ev = wts.get()
+            try:
+                return n, run_patch(p, props, repo=wt, env_prefix="SQLGREP_REPO=%s VERIF_EVIDENCE_DIR=%s VERIF_KEEP_FACTS=%d " % (wt, ev, 4 * njobs))
+            finally:
+                wts.put((wt, ev))
+        try:
+            with concurrent.futures.ThreadPoolExecutor(max_workers=njobs) as ex:
+                for n, r in ex.map(work, todo):
+                    done[n] = r
+        finally:
+            for wt, ev in made:
+                sh("git worktree remove --force %s" % wt, REPO)
+                shutil.rmtree(ev, ignore_errors=True)
+    for kind, n, p, props in todo:
+        r = done[n] if n in done else run_patch(p, props)
         results[kind][n] = r
         if not r.get("applies"):
             print("%-8s %-40s PATCH DOES NOT APPLY" % (kind, n))
